@@ -137,6 +137,8 @@ static void report(const char *cls, const Grp &G, size_t i, bool faulty, bool fr
 	// (3) a coin is returned exactly for matching in-range openings, and it is the sum
 	if (R.ret && !okO) propfail("bad-opening-accepted", "out-of-range or non-matching opening but a coin was returned: " + ctx);
 	if (!R.ret && okO) propfail("good-opening-refused", "well-formed matching opening refused: " + ctx);
+	if (R.ret && (mpz_sgn(R.coin) < 0 || mpz_cmp(R.coin, G.q) >= 0))
+		propfail("coin-out-of-range", "coin " + hx(R.coin) + " is not in [0, q): " + ctx);
 	if (R.ret && okO && !faulty) {
 		mpz_add(t1, R.a, a1); mpz_mod(t1, t1, G.q);
 		if (mpz_cmp(t1, R.coin)) propfail("coin-not-sum", "coin " + hx(R.coin) + " is not (a + a') mod q = " + hx(t1) + ": " + ctx);
@@ -356,6 +358,14 @@ int main(int argc, char **argv) {
 					{ line(C), line(x) },                                   // second half of the opening withheld
 					{ line(C) },                                           // opening withheld
 					{ line(C), line(x), line(y), line("7") } };            // extra line
+				// negative congruent representatives of a valid opening (accepted: |a'| < q and same commitment); the coin must still be (a + a') mod q in [0, q)
+				for (int w = 0; w < 4; w++) {
+					if (w >= 2) mpz_set_ui(x, 1 + gen().below(3));      // a + a' - q is then certainly negative
+					G.commit(C, x, y);
+					mpz_sub(t, x, G.q); mpz_t t2; mpz_init(t2); mpz_sub(t2, y, G.q);
+					if (w & 1) scs.push_back({ line(C), line(t), line(t2) }); else scs.push_back({ line(C), line(t), line(y) });
+					mpz_clear(t2);
+				}
 				// boundary of the range check: openings of g^0 h^y and g^x h^0 with the zero replaced by q and -q
 				for (int w = 0; w < 4; w++) {
 					mpz_set_ui(t, 0); if (w < 2) G.commit(C, t, y); else G.commit(C, x, t);
